@@ -234,10 +234,22 @@ func (fx *c07Fx) judge(run *c07Run) {
 	expectA := creditable && !guardedDepositFault &&
 		(run.Shape.Hook == "none" || ((run.Shape.Hook == "ok" || run.Shape.Hook == "wd") && !hookFault))
 	// only the hook signer's account sequence may move, by one
+	// ... and a well-signed hook tx that reached the ante handler CONSUMES the signer's sequence
+	// whether its messages succeed or fail (otherwise the public hook bytes can be replayed);
+	// undecodable or badly signed payloads leave it alone
+	wellSigned := map[string]bool{"fail1": true, "fail2": true, "ok": true, "wd": true, "wdfail": true}[run.Shape.Hook]
 	for k := range post.AccSeq {
 		d := post.AccSeq[k] - pre.AccSeq[k]
 		if d != 0 && !(hookShouldRun && tr.Accts[k] == run.Signer && d == 1) {
 			fx.viol(run, "C07:account-sequence", fmt.Sprintf("account sequence of %d moved by %d", tr.Accts[k], d))
+		}
+		if tr.Accts[k] == run.Signer && hookShouldRun {
+			if wellSigned && d != 1 {
+				fx.viol(run, "C07:account-sequence", fmt.Sprintf("the well-signed hook ran but the signer's account sequence moved by %d instead of 1: the hook bytes stay replayable", d))
+			}
+			if (run.Shape.Hook == "garbage" || run.Shape.Hook == "badsig") && d != 0 {
+				fx.viol(run, "C07:account-sequence", fmt.Sprintf("an undecodable / badly signed hook moved the signer's account sequence by %d", d))
+			}
 		}
 	}
 	if dev.Success {
@@ -467,6 +479,51 @@ func genC07(seed uint64, tier string, outdir string) *Report {
 					}
 				}
 			}
+		}
+		// two-step shapes: a well-signed hook that fails with the first deposit is attached, byte
+		// for byte, to a later and larger deposit (by another executor) to the same recipient,
+		// with which its transfer would be affordable: it must be refused at the ante step
+		for _, hk := range []string{"send", "withdraw"} {
+			branch, _ := fx.base.CacheContext()
+			e.Ctx = branch
+			msg := HookSend{To: target, Denom: hookDen, Amt: big.NewInt(250)}
+			if hk == "withdraw" {
+				msg = HookSend{Withdraw: true, ToL1: sc.L1Addrs[0], Denom: hookDen, Amt: big.NewInt(250)}
+			}
+			hook := e.MakeHookTx(signer, e.AccSeq(signer), true, []HookSend{msg})
+			op1 := sc.Deposit(e.User(1).Str, n1, e.User(signer).Str, 0, big.NewInt(100), hook)   // 100 + 100 < 250: the hook fails
+			op2 := sc.Deposit(e.User(2).Str, n1+1, e.User(signer).Str, 0, big.NewInt(200), hook) // 100 + 200 >= 250
+			tr := sc.Case.Track
+			pre := l2ViewOf(tr, e.L2Obs(tr, ExecResult{OK: true}))
+			r1 := e.L2Exec(op1)
+			o1 := e.L2Obs(tr, r1)
+			r2 := e.L2Exec(op2)
+			o2 := e.L2Obs(tr, r2)
+			post := l2ViewOf(tr, o2)
+			e.Ctx = fx.base
+			caseID++
+			rep.Ops += 2
+			rep.CountCase(fmt.Sprintf("%d/replay/%s", b, hk), true)
+			rep.Hist("two-step:hook-bytes-reused:" + hk)
+			run := &c07Run{Shape: c07Shape{"valid", "100 then 200", "replayed-" + hk}, Base: b, Op: op2, Res: r2}
+			hd := l2IdxS(tr.Denoms, hookDen)
+			ti, si := l2IdxU(tr.Accts, target), l2IdxU(tr.Accts, signer)
+			executed := post.Bal[ti][hd].Cmp(pre.Bal[ti][hd]) != 0 || post.Sup[hd].Cmp(new(big.Int).Add(pre.Sup[hd], big.NewInt(0))) < 0
+			for _, ev := range parseL2EvList(r2.Events) {
+				if ev.IsDep && ev.Success {
+					executed = true
+				}
+			}
+			if !r1.OK || !r2.OK {
+				fx.viol(run, "C07:deposit-blocked", "a deposit of the two-step shape made the handler fail")
+			} else if executed {
+				fx.rep.Violate(Violation{Case: rep.Cases, Step: 1, Sig: "C07:hook-replayed",
+					What: fmt.Sprintf("the bytes of a hook that failed with deposit %d were executed with deposit %d (hook target balance %s -> %s, signer sequence %d -> %d)",
+						n1, n1+1, pre.Bal[ti][hd], post.Bal[ti][hd], pre.AccSeq[si], post.AccSeq[si]), Ops: opsCoq([]L2Op{op1, op2})})
+			}
+			c := &L2Case{ID: caseID, Env: e, Track: sc.Case.Track, Params: sc.Case.Params, NextL1: sc.Case.NextL1, NextL2: sc.Case.NextL2,
+				Bals: sc.Case.Bals, Sups: sc.Case.Sups, Pairs: sc.Case.Pairs, Ops: []L2Op{op1, op2}, Obs: []Ov{o1, o2}}
+			texts = append(texts, c.Coq())
 		}
 		// random payloads (thorough): random send lists, signers, sequences
 		if tier == "thorough" {
